@@ -126,6 +126,11 @@ fn main() {
             for (i, c) in cases.iter().enumerate().skip(start) {
                 out.put(&gen_rs::run_case(i + 1, c, profile));
             }
+            let storm = gen_rs::STORM_CALLS.load(std::sync::atomic::Ordering::Relaxed);
+            if storm > 0 {
+                // words tried by the storm on which the decoder reported an error (not logged: C09 concerns reported successes)
+                out.put(&serde_json::json!({"id": 0, "fam": "rs", "summary": true, "executed_unlogged": storm}));
+            }
             out.flush();
             eprintln!("rs: {} cases", cases.len());
         }
